@@ -34,19 +34,27 @@ func AddUint64(addr *uint64, delta uint64) uint64 {
 }
 func LoadInt32(addr *int32) int32 {
 	sim.Pre("atomic.LoadInt32")
-	return stdatomic.LoadInt32(addr)
+	v := stdatomic.LoadInt32(addr)
+	sim.After("atomic.LoadInt32")
+	return v
 }
 func LoadInt64(addr *int64) int64 {
 	sim.Pre("atomic.LoadInt64")
-	return stdatomic.LoadInt64(addr)
+	v := stdatomic.LoadInt64(addr)
+	sim.After("atomic.LoadInt64")
+	return v
 }
 func LoadUint32(addr *uint32) uint32 {
 	sim.Pre("atomic.LoadUint32")
-	return stdatomic.LoadUint32(addr)
+	v := stdatomic.LoadUint32(addr)
+	sim.After("atomic.LoadUint32")
+	return v
 }
 func LoadUint64(addr *uint64) uint64 {
 	sim.Pre("atomic.LoadUint64")
-	return stdatomic.LoadUint64(addr)
+	v := stdatomic.LoadUint64(addr)
+	sim.After("atomic.LoadUint64")
+	return v
 }
 func StoreInt32(addr *int32, v int32) {
 	sim.Pre("atomic.StoreInt32")
@@ -112,7 +120,9 @@ type Pointer[T any] struct {
 
 func (x *Pointer[T]) Load() *T {
 	sim.Pre("atomic.Pointer.Load")
-	return x.p.Load()
+	v := x.p.Load()
+	sim.After("atomic.Pointer.Load")
+	return v
 }
 func (x *Pointer[T]) Store(v *T) {
 	sim.Pre("atomic.Pointer.Store")
